@@ -7,13 +7,14 @@
                          reduction: the stream table is keyed by the handler's own id), so a behaviour is an
                          interleaving of the choice points get1, add, reg, m1, m2.  Every terminal behaviour
                          is printed (prefix GEN) together with the outcome the model predicts.
-   GenMode = "conflict": only get2 is eager; exploration stops at the first state violating NoConflict and
-                         the prefix leading there is printed (prefix GENC) with the conflicting handlers. *)
+   GenMode = "conflict": only add and get2 are eager (the channel-table interleavings are covered by "logic");
+                         exploration stops at the first state violating NoConflict and the prefix leading
+                         there is printed (prefix GENC) with the conflicting handlers. *)
 EXTENDS ReceiverConcImpl, Json
 CONSTANT GenMode
 VARIABLE hist
 Controlled == {"get1", "add", "s1", "s3", "reg", "m1", "ms1", "m2"}
-Eager == IF GenMode = "logic" THEN {"get2", "s1", "s2", "s3", "s4", "ms1", "ms2", "m3"} ELSE {"get2"}
+Eager == IF GenMode = "logic" THEN {"get2", "s1", "s2", "s3", "s4", "ms1", "ms2", "m3"} ELSE {"add", "get2"}
 GenInit == Init /\ hist = <<>>
 GenNext == /\ GenMode = "conflict" => NoConflict
            /\ LET U == {p \in Handlers : pc[p] \in Eager}
